@@ -195,6 +195,51 @@ def statement_family():
     return S
 
 
+def trailing_comma_family():
+    '''(name, [statements]) programs whose parameter lists / event data lists end with the comma the grammar allows after
+    the last item ("::f(a: 1, )"): another spelling of the same list.  Each production that holds such a list occurs with
+    one and with two items, alone, next to the same invocation written with an empty "()" (before and after it), and
+    nested in an argument.'''
+    e = ('bin', '+', V('a'), I(1))
+    TC = A.TRAILING_COMMA
+    one = [('a', I(1)), TC]
+    two = [('a', I(1)), ('b', e), TC]
+    S = []
+
+    def add(name, *stmts):
+        S.append(('tc_' + name, list(stmts)))
+    forms = []       # (name, statement with the list, the same statement with an empty list)
+    for nm, args in (('1', one), ('2', two)):
+        forms += [
+            ('function' + nm, ('call', None, ('fcall', 'f', args)), ('call', None, ('fcall', 'f', []))),
+            ('implicit' + nm, ('call', None, ('ncall', 'NS', 'g', args)), ('call', None, ('ncall', 'NS', 'g', []))),
+            ('instance' + nm, ('call', None, ('icall', V('x'), 'op', args)), ('call', None, ('icall', ('self',), 'op', []))),
+            ('bridge' + nm, ('call', 'bridge', ('ncall', 'EE', 'b', args)), ('callassign', 'bridge', V('v'), ('ncall', 'EE', 'b', []))),
+            ('transform' + nm, ('callassign', 'transform', V('v'), ('icall', V('x'), 'op', args)), ('call', 'transform', ('ncall', 'K', 'cop', []))),
+            ('transform_class' + nm, ('call', 'transform', ('ncall', 'K', 'cop', args)), ('call', 'transform', ('icall', V('x'), 'op', []))),
+            ('send' + nm, ('call', 'send', ('ncall', 'Port', 'msg', args)), ('callassign', 'send', V('v'), ('ncall', 'Port', 'msg', []))),
+            ('port_event' + nm, ('portevent', 'Port', 'sig', args, V('x')), ('portevent', 'Port', 'sig', [], V('x'))),
+            ('operand' + nm, ('assign', V('r'), ('bin', '*', ('fcall', 'f', args), ('icall', V('x'), 'op', args)), False),
+             ('assign', V('r'), ('bin', '*', ('fcall', 'f', []), ('icall', V('x'), 'op', [])), False)),
+            ('generate' + nm, ('gen', ('E1', False, None, args), ('inst', V('x'))), ('gen', ('E1', False, None, []), ('inst', V('x')))),
+            ('generate_class' + nm, ('gen', ('E1', True, T('go'), args), ('class', 'K')), ('gen', ('E1', False, None, []), ('creator', 'K'))),
+            ('create_event' + nm, ('createev', 'ev', ('E1', False, None, args), ('inst', ('self',))),
+             ('createev', 'ev', ('E1', False, None, []), ('inst', ('self',)))),
+        ]
+    for nm, full, empty in forms:
+        add(nm, full)
+        if nm.endswith('1'):
+            add(nm + '_then_empty', full, empty)
+        else:
+            add(nm + '_after_empty', empty, full)
+    add('nested', ('call', None, ('fcall', 'f', [('a', ('fcall', 'g', one)), ('b', ('fcall', 'h', [])), TC])))
+    add('nested_index', ('assign', V('r'), ('index', V('a'), ('icall', V('x'), 'op', two)), False), ('return', ('fcall', 'f', [])))
+    add('in_blocks', ('if', ('fcall', 'f', one), [('call', None, ('fcall', 'f', []))], [], [('call', None, ('fcall', 'f', two))], [False]),
+        ('while', ('fcall', 'f', []), [('gen', ('E2', False, None, two), ('inst', V('x')))], False),
+        ('gen', ('E2', False, None, []), ('inst', V('x'))))
+    return S
+
+
 # ---------------------------------------------------------------------------
 # layouts
 # ---------------------------------------------------------------------------
